@@ -39,6 +39,7 @@ pub fn run(ctx: &Ctx, args: &[String]) -> i32 {
         "c16-cross" => c04::c16_cross(ctx, args),
         "gen-corpus" => c04::gen_corpus(ctx, args),
         "memprobe" => c04::memprobe(ctx, args),
+        "memprobe-max" => c04::memprobe_max(ctx, args),
         "gen-hostile-sample" => c04::gen_hostile_sample(ctx, args),
         "C17" => c03::run_c17(ctx),
         "selfcheck" => selfcheck(ctx),
